@@ -51,6 +51,13 @@ CHECKS["C08"] = dict(
    note="Trusted: z3, symx, numpy/astropy semantics as modelled; velocities as distinct labels. Bounds: <=3 surveys, <=4 epochs total (quick), <=6 (thorough), poly_trend<=3.",
    technique="symbolic execution of the real Python source + z3 (LRA + Int permutation); sat models replayed on real RVData objects",
    ref="3/C08")
+CHECKS["C19"] = dict(
+   text="MAP_sample, max_phase_gap, phase_coverage, periods_spanned and RVData.phase (real code under shims) on symbolic observation times / sample columns: z3 proves the returned value equals the definition "
+        "(circular largest gap incl. the 1->0 arc via exact floor semantics, fraction of occupied bins, baseline/P, arg-max member row) for every input of the shape; hence order independence. Time-reversal invariance is a two-run relational query (2 epochs; unknown beyond). "
+        "Bounds: <=3 epochs, <=4 bins (quick) / <=4 epochs, <=5 bins (thorough); period symbolic for periods_spanned, a concrete rational per shape for the mod-1 statistics.",
+   note="Trusted: z3 (LIRA with to_int), symx, numpy histogram/linspace/sort/argmax semantics as modelled; float rounding at bin edges outside the claim; is_P_Kmodal (sklearn) outside.",
+   technique="symbolic execution of the real Python source + z3 (mixed integer/real linear arithmetic); sat models replayed on the real functions",
+   ref="3/C19")
 NOT_YET = {}
 ALL = ["C%02d" % i for i in range(1, 20)]
 
